@@ -46,6 +46,16 @@ def BoolType_any(*x):
     return BoolType()
 
 
+def repeat_left_tuple(left, right):
+    """ A repeated tuple has an unknown number of elements """
+    return TupleType([])
+
+
+def repeat_right_tuple(left, right):
+    """ A repeated tuple has an unknown number of elements """
+    return TupleType([])
+
+
 def keep_left(left, right):
     """ Returns the left parameter """
     return left
@@ -104,7 +114,7 @@ VALID_BINOP_TYPES = {
                          FloatType: NumType_any,
                          StrType: StrType_any,
                          ListType: keep_right,
-                         TupleType: keep_right},
+                         TupleType: repeat_right_tuple},
                FloatType: {NumType: NumType_any,
                            IntType: FloatType_any,
                            FloatType: FloatType_any},
@@ -113,13 +123,13 @@ VALID_BINOP_TYPES = {
                          FloatType: FloatType_any,
                          StrType: keep_right,
                          ListType: keep_right,
-                         TupleType: keep_right},
+                         TupleType: repeat_right_tuple},
                StrType: {NumType: keep_left,
                          IntType: keep_left},
                ListType: {NumType: keep_left,
                           IntType: keep_left},
-               TupleType: {NumType: keep_left,
-                           IntType: keep_left}},
+               TupleType: {NumType: repeat_left_tuple,
+                           IntType: repeat_left_tuple}},
     ast.Pow: {NumType: {NumType: NumType_any,
                         IntType: NumType_any,
                         FloatType: NumType_any},
